@@ -373,6 +373,9 @@ func (p *Parser) parseBuffer(buf []byte, last bool) (err error) {
 			}
 			p.starts = p.starts[0:depth]
 			n := p.stack[len(p.stack)-1]
+			if _, ok := n.(gen.Key); ok {
+				return p.newError(off, "expected a value")
+			}
 			p.stack = p.stack[:len(p.stack)-1]
 			// TBD maybe separarte add function or check here for time options
 			if err = p.add(n, off); err != nil {
